@@ -12,6 +12,7 @@ import (
 	"io"
 	"os"
 	"path/filepath"
+	"strings"
 )
 
 // A Ruleset is the result of reading, parsing, and compiling a
@@ -96,7 +97,10 @@ func (r *Ruleset) Excludes(path string) (ExcludesResult, error) {
 		}
 		if match {
 			foundMatch = !rule.negated
-			dominating = foundMatch && !rule.negationsAfter
+			// Only a rule for a directory and everything below it ("**" suffix)
+			// can vouch for the whole subtree; e.g. "/logs/*" also matches
+			// "logs/" but says nothing about "logs/a/b".
+			dominating = foundMatch && !rule.negationsAfter && strings.HasSuffix(rule.val, "**")
 		}
 	}
 	return ExcludesResult{
